@@ -121,13 +121,13 @@ def _sorted_obs(items):
     return sorted((default_observe(i) for i in items), key=lambda x: json.dumps(x, default=str))
 
 
-def run_native(jobs, timeout=900):
+def run_native(jobs, timeout=900, hashseed=None):
     """jobs: list of {module, case, prims}. Returns list of results (same order)."""
     if not jobs:
         return []
     env = dict(os.environ)
     env["PYTHONPATH"] = HERE + os.pathsep + REPO
-    env["PYTHONHASHSEED"] = env.get("PYTHONHASHSEED", "0")
+    env["PYTHONHASHSEED"] = str(hashseed) if hashseed is not None else env.get("PYTHONHASHSEED", "0")
     p = subprocess.run([NATIVE_PY, "-m", "pyvc.native"], input=json.dumps(jobs), capture_output=True, text=True,
                        env=env, cwd=REPO, timeout=timeout)
     if p.returncode != 0:
@@ -209,6 +209,10 @@ def main(argv=None):
             bump(3)
             continue
         for cov, ok in r["covers"].items():
+            if cov.startswith("known:"):
+                kf = [k for k in load_known() if k.get("id") == cov[6:]]
+                lines.append(f"KNOWN-FINDING: property={prop} " + (kf[0]["what"] if kf else cov[6:]))
+                continue
             if not ok and cov not in getattr(c, "allow_uncovered", ()):
                 lines.append(f"CHECKER-ERROR case={c.name}: cover '{cov}' unreachable (vacuous contract clause)")
                 bump(3)
@@ -534,12 +538,29 @@ def run_bounded(prop, cases, tier, known):
         return report, [f"CHECKER-ERROR bounded tier native runner: {ex}"], 3
     k = 0
     os.makedirs(os.path.join(HERE, "replays", prop), exist_ok=True)
+    # identifiers / answers must not depend on the hash seed: cases with ``hashseeds`` are re-run in separate
+    # interpreters with other PYTHONHASHSEED values and the observations compared
+    seed_runs = {}
+    for modname, c, prims in meta:
+        seeds = getattr(c, "hashseeds", None)
+        if seeds:
+            for sd in seeds[1:]:
+                try:
+                    seed_runs[(c.name, sd)] = run_native([dict(module=modname, case=c.name, prims=p) for p in prims],
+                                                         timeout=3000, hashseed=sd)
+                except Exception as ex:
+                    return report, [f"CHECKER-ERROR bounded tier (hash seed {sd}): {ex}"], 3
     for modname, c, prims in meta:
         evaluated = 0
         fails = {}
-        for p in prims:
+        for pi, p in enumerate(prims):
             r = res[k]
             k += 1
+            base_checks = dict(r.get("checks", {}))
+            for (cn, sd), rr in seed_runs.items():
+                if cn == c.name and not r.get("skip") and not rr[pi].get("skip"):
+                    same = (rr[pi].get("obs") == r.get("obs")) and rr[pi].get("checks") == base_checks
+                    r.setdefault("checks", {})["same-under-PYTHONHASHSEED-%s" % sd] = same
             if r.get("error"):
                 return report, [f"CHECKER-ERROR bounded {c.name}: {r['error']}"], 3
             if r.get("skip"):
